@@ -191,13 +191,12 @@ def evalPathLoop (r : Rec N) (env : Nat) (n : Nat) :
     Nat → List (Node N) → List (Option (Val N)) → EvalM N (Option (RV N))
   | _, [], _ => pure none
   | i, step :: rest, items => do
-    let next ← (do
-      match i, step with
-      | 0, .array _ =>
+    let next ← (
+      if i == 0 && isConsNode step then do
         -- a leading array constructor is evaluated once, against the whole initial output
         let v ← r.ev step (some (.arr (items.filterMap id))) env
         pure (v.map RV.val)
-      | _, _ => evalPathStep (fun x => r.ev step x env) (isConsNode step) items (i + 1 == n))
+      else evalPathStep (fun x => r.ev step x env) (isConsNode step) items (i + 1 == n))
     match next with
     | none => pure none
     | some (.val (.arr [])) => pure none
